@@ -66,7 +66,9 @@ pub fn uncompact(cells: &[u64], target_resolution: i32) -> Result<Vec<u64>, Stri
         let num_children = get_num_children(resolution, target_resolution);
 
         if num_children == 1 {
-            result.push(cell);
+            // Same resolution: still decode and re-encode, so that a malformed ID is
+            // reported and a non-canonical alias is not passed through
+            result.extend(cell_to_children(cell, Some(resolution))?);
         } else {
             let children = cell_to_children(cell, Some(target_resolution))?;
             result.extend(children);
